@@ -402,6 +402,15 @@ func genC13Cases(env *Env, r *Rand, n int, full bool) []Case {
 			add("global-operand", wrap("\t"+kw+" "+g))
 		}
 	}
+	// redundant parentheses around terms that are NOT constants (a label, a register sum), at depths a person would not write but a
+	// generator might: evaluation must not be repeated per level
+	for _, depth := range []int{4, 16, 40, 100, 400} {
+		o, c := strings.Repeat("(", depth), strings.Repeat(")", depth)
+		for _, st := range []string{"\tJMP " + o + "deflabel" + c, "\tMOV AL,[" + o + "SI+1" + c + "]", "\tMOV BX," + o + "deflabel" + c, "\tDW " + o + "deflabel" + c, "\tMOV AX," + o + "1+2" + c,
+			"XP\tEQU\t" + o + "deflabel" + c + "\n\tMOV AX,XP", "\tMOV EAX,[EBX+" + o + "ECX*4" + c + "]", "\tRESB " + o + "0x20-$" + c, "\tDD " + o + "$" + c + "+" + o + "deflabel" + c} {
+			add("nested-parens-nonconstant", wrap(st))
+		}
+	}
 	// (a) random byte strings
 	for i := 0; i < n/6; i++ {
 		l := r.Range(0, 200)
